@@ -1,4 +1,5 @@
 import ZkElGamal.Driver.Wire
+import ZkElGamal.Driver.Sigma
 /-!
 `zkmodel` — the executable model. One op per line on stdin (`<id> <op> <args…>`),
 one result per line on stdout (`<id> <outcome>`); the same lines are run by the
@@ -10,6 +11,10 @@ def execOp (op : String) (args : List String) : String :=
   match op with
   | "ix" => opIx args
   | "state" => opState args
+  | "verify" => opVerify args
+  | "new" => opNew args
+  | "prove" => opProve args
+  | "mprove" => opMprove args
   | _ => "bad-op"
 
 partial def loop (h : IO.FS.Stream) (out : IO.FS.Stream) : IO Unit := do
